@@ -7,6 +7,11 @@
 (* Namesake dimension (section "namesakes"): seeds that declare a type under *)
 (* the name of a built-in type, generated from templates and by renaming     *)
 (* the declared types of the other seeds, plus the families namesake-*.      *)
+(* Method calls (section "method calls"): seeds that call every built-in     *)
+(* method of the fragment legally, families method-receiver / -arg-type /    *)
+(* -arg-count / -unknown.  Divergence accounting (section of that name): the *)
+(* grammar of exit / fall-through shapes, family fallthrough-after-branch    *)
+(* and the twin seeds (the same edit with a shape that exits on every path). *)
 (*                                                                           *)
 (* Seeds are written as nested trees with the small constructor vocabulary   *)
 (* below and turned into the node-table form of Typing.tla by Flat.          *)
@@ -22,7 +27,10 @@ CONSTANTS NumTys,      \* numeric types the templates are instantiated with
           NsNames,     \* namesake dimension: built-in type names a script type is declared under
           NsTys,       \* payload types the namesake templates are instantiated with
           NsFamilies,  \* edit families applied to the namesake seeds
-          RenameTys    \* seeds instantiated with these types are renamed (a declared type -> a built-in name)
+          RenameTys,   \* seeds instantiated with these types are renamed (a declared type -> a built-in name)
+          SwapMethods, \* method names a method call is renamed to (family method-unknown; the judgement decides)
+          DivTys,      \* numeric types the divergence seeds SDiv are instantiated with
+          DivDeepFns   \* names of the functions that get ALL exit / fall-through shapes up to nesting depth 2
 
 (* ---------------------------------------------------------------- vocabulary *)
 I(v)        == [k |-> "int", v |-> v, suf |-> ""]
@@ -66,6 +74,11 @@ Lst(es)     == [k |-> "list", es |-> es]
 While(c, b) == [k |-> "while", c |-> c, b |-> b]
 For(n, e, b) == [k |-> "for", n |-> n, e |-> e, b |-> b]
 
+MC(e, m, args) == [k |-> "mcall", e |-> e, m |-> m, args |-> args]     \* e.m(args)
+MC0(e, m)   == MC(e, m, <<>>)
+(* in a nested tree: the node that already has index i in the table (it is not copied) *)
+Ref(i)      == [k |-> "ref", i |-> i]
+
 Pm(n, t)    == [n |-> n, t |-> t]
 RecordD(n, fs) == [k |-> "record", n |-> n, fs |-> fs]
 Vr(n, ts)   == [n |-> n, ts |-> ts]
@@ -96,6 +109,11 @@ FlArms(arms, ns) ==
        IN [ns |-> r.ns, arms |-> <<[h EXCEPT !.g = g.is, !.b = b.i]>> \o r.arms]
 Fl(e, ns) ==
   CASE e.k \in {"int", "float", "bool", "str", "unit", "ip", "var"} -> Put(ns, e)
+    [] e.k = "ref" -> [ns |-> ns, i |-> e.i]
+    [] e.k = "mcall" ->
+         LET r == Fl(e.e, ns)
+             a == FlSeq(e.args, r.ns)
+         IN Put(a.ns, [e EXCEPT !.e = r.i, !.args = a.is])
     [] e.k \in {"neg", "not", "fld", "try", "let", "assign", "cassign"} ->
          LET a == Fl(e.e, ns) IN Put(a.ns, [e EXCEPT !.e = a.i])
     [] e.k = "bin" ->
@@ -435,6 +453,198 @@ TyDecl(kind, sq) ==
 TypeSeeds == {Seed("ty_" \o kind \o "_" \o Code(sq), TyHelpers \o <<TyDecl(kind, sq)>>) : kind \in {"record", "enum"}, sq \in ShapeSeqs}
 
 
+(* ------------------------------------------------------------- method calls *)
+(* Legal uses of the built-in methods (Typing.tla "methods"), with receivers of *)
+(* every syntactic form: a parameter, a field path, a call result, a list /    *)
+(* string / suffixed number literal, an operator expression, another method     *)
+(* call, `?`.  Every function takes the same pack of parameters of different    *)
+(* types, so that the edit "another variable as the receiver" has candidates.   *)
+LS(t, v) == IF t \in FloatK THEN FS(<<"1.5", "2.5", "3.0", "4.25", "7.0">>[v], t) ELSE IS(v, t)
+MPack(t) == <<Pm("s", Str), Pm("p", Str), Pm("ls", ListOf(Str)), Pm("lt", ListOf(T(t))), Pm("n", T("u64")), Pm("x", T(t)), Pm("b", Bool)>>
+Add3(a, b, c) == Bin("add", a, Bin("add", b, c))
+
+SMStrA == LET pk == MPack("i32") IN <<
+  Fn("st1", pk, Bool, Blk(<<>>,
+     Bin("and", MC(V("s"), "contains", <<V("p")>>),
+         Bin("or", MC(V("s"), "starts_with", <<S("a")>>),
+             Bin("or", MC(V("p"), "ends_with", <<V("s")>>), MC(V("s"), "eq", <<V("p")>>)))))),
+  Fn("st2", pk, Str, Blk(<<>>,
+     MC0(MC0(MC0(MC0(MC0(MC0(MC(MC(MC(V("s"), "append", <<V("p")>>), "repeat", <<V("n")>>), "replace", <<S("a"), V("p")>>),
+        "to_lowercase"), "to_uppercase"), "trim"), "trim_start"), "trim_end"), "to_string")))>>
+SMStrB == LET pk == MPack("i32") IN <<
+  Fn("st3", pk, ListOf(Str), Blk(<<
+      Let("a", ListOf(Str), MC(V("s"), "split", <<V("p")>>)),
+      Let("c", ListOf(Str), MC(V("s"), "splitn", <<V("n"), S(",")>>)),
+      LetI("d", MC(V("p"), "rsplitn", <<I(2), V("s")>>))>>,
+    MC(MC(V("a"), "concat", <<V("c")>>), "concat", <<V("d")>>))),
+  Fn("st4", pk, Opt(Str), Blk(<<Let("q", Str, Try(MC(V("s"), "strip_prefix", <<V("p")>>)))>>, MC(V("q"), "strip_suffix", <<S("z")>>)))>>
+SMStrC == LET pk == MPack("i32") IN <<
+  Fn("st5", pk, Str, Blk(<<>>,
+     Add3(MC(V("ls"), "join", <<V("p")>>), MC(Lst(<<S("a"), V("s")>>), "join", <<S(", ")>>),
+          Add3(MC(MC(V("s"), "split", <<S(",")>>), "join", <<V("s")>>), MC0(S("lit"), "to_uppercase"),
+               Add3(MC0(V("x"), "to_string"), MC0(V("b"), "to_string"), MC0(V("n"), "to_string"))))))>>
+SMStrD == <<
+  RecordD("MR", <<Pm("flags", ListOf(Str)), Pm("nums", ListOf(T("i32"))), Pm("name", Str), Pm("cnt", T("i32")), Pm("on", Bool)>>),
+  Fn("st6", <<Pm("r", Named("MR")), Pm("p", Str)>>, Str, Blk(<<>>,
+     Add3(MC(Fld(V("r"), "flags"), "join", <<Fld(V("r"), "name")>>), MC0(Fld(V("r"), "cnt"), "to_string"), MC0(Fld(V("r"), "name"), "trim")))),
+  Fn("mkl", <<>>, ListOf(Str), Blk(<<>>, Lst(<<S("a")>>))),
+  Fn("st7", <<Pm("p", Str), Pm("k", T("i32"))>>, Str, Blk(<<>>, MC(Call("mkl", <<>>), "join", <<V("p")>>)))>>
+
+SMListA(t) == LET pk == MPack(t) IN <<
+  Fn("l1", pk, T("u64"), Blk(<<>>, Add3(MC0(V("lt"), "len"), MC0(V("lt"), "capacity"), MC0(V("ls"), "len")))),
+  Fn("l2", pk, Bool, Blk(<<>>,
+     Bin("or", MC(V("lt"), "contains", <<V("x")>>),
+         Bin("or", MC0(V("lt"), "is_empty"),
+             Bin("or", MC(V("ls"), "contains", <<V("s")>>), MC(Lst(<<V("x"), L(t, 2)>>), "contains", <<V("x")>>)))))),
+  Fn("l3", pk, Opt(T(t)), Blk(<<>>, MC(V("lt"), "get", <<V("n")>>))),
+  Fn("l4", pk, T(t), Blk(<<>>, Match(MC(V("lt"), "get", <<I(1)>>), <<
+      Arm("Some", <<"v">>, Blk(<<>>, V("v"))),
+      Arm("None", <<>>, Blk(<<>>, V("x")))>>)))>>
+SMListB(t) == LET pk == MPack(t) IN <<
+  Fn("l5", pk, Opt(T("u64")), Blk(<<>>, MC(V("lt"), "index", <<V("x")>>))),
+  Fn("l6", pk, ListOf(T(t)), Blk(<<
+      MC(V("lt"), "push", <<V("x")>>),
+      MC(V("lt"), "swap", <<V("n"), I(1)>>),
+      MC(V("ls"), "push", <<V("s")>>)>>,
+    MC(MC(V("lt"), "concat", <<Lst(<<V("x")>>)>>), "concat", <<V("lt")>>))),
+  Fn("l7", <<Pm("ll", ListOf(ListOf(Str))), Pm("lt", ListOf(T(t))), Pm("n", T("u64"))>>, Opt(Str),
+     Blk(<<>>, Some(MC(Try(MC(V("ll"), "get", <<V("n")>>)), "join", <<S(",")>>)))),
+  Fn("l8", pk, Str, Blk(<<>>,
+     Add3(MC0(V("x"), "to_string"), MC0(Bin("add", V("x"), L(t, 2)), "to_string"), MC0(LS(t, 3), "to_string"))))>>
+  \o (IF t \in FloatK THEN <<
+  Fn("fl1", <<Pm("x", T(t)), Pm("y", T(t)), Pm("k", T("i32")), Pm("s", Str)>>, T(t), Blk(<<>>,
+     MC(MC0(MC0(MC0(MC0(MC0(V("x"), "abs"), "ceil"), "floor"), "round"), "sqrt"), "pow", <<V("y")>>))),
+  Fn("fl2", <<Pm("x", T(t)), Pm("y", T(t)), Pm("k", T("i32")), Pm("s", Str)>>, Bool, Blk(<<>>,
+     Bin("or", MC0(V("x"), "is_nan"), Bin("or", MC0(V("x"), "is_finite"), MC0(Neg(V("y")), "is_infinite")))))>> ELSE <<>>)
+
+SMIp == LET pk == <<Pm("a", T("IpAddr")), Pm("q", T("Prefix")), Pm("w", T("u8")), Pm("s", Str)>> IN <<
+  Fn("ip1", pk, Bool, Blk(<<>>,
+     Bin("or", MC0(V("a"), "is_ipv4"),
+         Bin("or", MC0(V("a"), "is_ipv6"),
+             Bin("or", MC(V("a"), "eq", <<MC0(V("a"), "to_canonical")>>), MC(V("q"), "eq", <<V("q")>>)))))),
+  Fn("ip2", pk, Str, Blk(<<>>, Add3(MC0(V("a"), "to_string"), MC0(V("q"), "to_string"), MC0(MC0(V("q"), "len"), "to_string")))),
+  Fn("ip3", pk, T("IpAddr"), Blk(<<>>,
+     If(MC(MC0(V("q"), "addr"), "eq", <<MC0(V("q"), "min_addr")>>),
+        Blk(<<>>, MC0(V("q"), "max_addr")), Blk(<<>>, MC0(Bin("div", V("a"), V("w")), "addr")))))>>
+
+MethodSeeds ==
+  {Seed("mstr_a", SMStrA), Seed("mstr_b", SMStrB), Seed("mstr_c", SMStrC), Seed("mstr_d", SMStrD), Seed("mip", SMIp)}
+  \cup {Seed("mlist_a_" \o t, SMListA(t)) : t \in NumTys}
+  \cup {Seed("mlist_b_" \o t, SMListB(t)) : t \in NumTys}
+
+(* --------------------------------------------------- divergence accounting *)
+(* A construct diverges only if EVERY way through it exits.  A SHAPE is a      *)
+(* statement built from the exit block X (`{ return e; }`, in a filtermap the  *)
+(* `{ accept .. ; }` / `{ reject; }` it ended in) and the empty block F:        *)
+(*   if1(a)        if true { a }                  never diverges               *)
+(*   ifelse(a, b)  if true { a } else { b }       diverges iff a and b do      *)
+(*   while(a)      while false { a }              never (the body may not run) *)
+(*   for(a)        for zz_it in [0] { a }         never                        *)
+(*   and(a) or(a)  true && { a } / false || { a } never (the operand may be    *)
+(*                                                skipped)                     *)
+(*   match(f, as)  match Some(1) { arms of form f with the bodies as }         *)
+(*                 diverges iff EVERY arm does: guarded or not, `_` or not      *)
+(* AllExit is this rule, written on the shapes; the invariants hold it against *)
+(* the judgement of Typing.tla in both directions: a function that must return *)
+(* a value and ENDS in the statement of a shape is ill typed unless AllExit    *)
+(* (MutantIllTyped, family fallthrough-after-branch), well typed if AllExit    *)
+(* (the twin seeds, SeedWellTyped).                                            *)
+Lf(s)   == [s |-> s, f |-> <<>>, ch |-> <<>>]
+Ex      == Lf("exit")
+Fa      == Lf("fall")
+AF(v, g) == [v |-> v, g |-> g]
+(* arm forms: variant (or `_`) and whether the arm has a guard *)
+MatchForms == <<
+  <<AF("Some", TRUE), AF("Some", FALSE), AF("None", FALSE)>>,    \* 1 guarded variant arm before the unguarded one
+  <<AF("Some", FALSE), AF("None", FALSE)>>,                      \* 2 no guards
+  <<AF("Some", FALSE), AF("_", FALSE)>>,                         \* 3 `_` arm
+  <<AF("Some", FALSE), AF("_", TRUE), AF("None", FALSE)>>,       \* 4 guarded `_` arm
+  <<AF("Some", TRUE), AF("_", FALSE)>>,                          \* 5 guard on the only arm of a variant, plus `_`
+  <<AF("None", FALSE), AF("Some", TRUE), AF("_", FALSE)>>,       \* 6 the same after an arm for the other variant
+  <<AF("Some", TRUE), AF("None", TRUE), AF("_", FALSE)>>>>       \* 7 every variant arm guarded
+SkipKinds == {"if1", "while", "for", "and", "or"}
+Conts == {[s |-> "if1", f |-> <<>>, n |-> 1], [s |-> "ifelse", f |-> <<>>, n |-> 2]}
+         \cup {[s |-> w, f |-> <<>>, n |-> 1] : w \in {"while", "for", "and", "or"}}
+         \cup {[s |-> "match", f |-> MatchForms[x], n |-> Len(MatchForms[x])] : x \in DOMAIN MatchForms}
+Sh(c, ch) == [s |-> c.s, f |-> c.f, ch |-> IF c.n = 1 THEN <<ch[1]>> ELSE IF c.n = 2 THEN <<ch[1], ch[2]>> ELSE <<ch[1], ch[2], ch[3]>>]
+RECURSIVE AllExit(_), HasExit(_), ShTags(_), ShCode(_)
+AllExit(sh) ==
+  CASE sh.s = "exit" -> TRUE
+    [] sh.s = "fall" -> FALSE
+    [] sh.s \in SkipKinds -> FALSE
+    [] OTHER -> \A x \in DOMAIN sh.ch : AllExit(sh.ch[x])
+HasExit(sh) == sh.s = "exit" \/ \E x \in DOMAIN sh.ch : HasExit(sh.ch[x])
+IsLeaf(sh) == sh.s \in {"exit", "fall"}
+(* shapes whose parts are taken from C; shapes with ONE part from X and exit blocks elsewhere *)
+FullShapes(C)  == UNION {{Sh(c, ch) : ch \in [1..c.n -> C]} : c \in Conts}
+NestShapes(X)  == UNION {{Sh(c, [y \in 1..c.n |-> IF y = z[1] THEN z[2] ELSE Ex]) : z \in (1..c.n) \X X} : c \in Conts}
+Depth1 == FullShapes({Ex, Fa})
+Depth2 == NestShapes({x \in Depth1 : HasExit(x)})
+(* the shapes with at most one empty block, without the loops / && / || of the older families *)
+CoreShapes == {sh \in Depth1 : sh.s \in {"if1", "ifelse", "match"} /\ Cardinality({x \in DOMAIN sh.ch : sh.ch[x] = Fa}) <= 1}
+FormIdx(f) == CHOOSE x \in DOMAIN MatchForms : MatchForms[x] = f
+(* what a shape contains (for the anti-vacuity guard of the check) *)
+ShTags(sh) ==
+  IF IsLeaf(sh) THEN {}
+  ELSE {sh.s} \cup (IF \E x \in DOMAIN sh.ch : ~IsLeaf(sh.ch[x]) THEN {"nested"} ELSE {})
+       \cup UNION {ShTags(sh.ch[x]) : x \in DOMAIN sh.ch}
+       \cup (IF sh.s # "match" THEN {} ELSE
+             {"form" \o Digit[FormIdx(sh.f)]}
+             \cup UNION {IF AllExit(sh.ch[x]) THEN {}
+                         ELSE {(IF sh.f[x].g THEN "guarded-" ELSE "unguarded-") \o (IF sh.f[x].v = "_" THEN "wildcard" ELSE "variant") \o "-arm-falls"}
+                         : x \in DOMAIN sh.ch}
+             \cup (IF (\A x \in DOMAIN sh.ch : ~sh.f[x].g => AllExit(sh.ch[x])) /\ (\E x \in DOMAIN sh.ch : sh.f[x].g /\ ~AllExit(sh.ch[x]))
+                   THEN {"only-guarded-arms-fall"} ELSE {}))
+HasGuardedWild(sh) == "form4" \in ShTags(sh)
+ShCode(sh) ==
+  CASE sh.s = "exit" -> "X"
+    [] sh.s = "fall" -> "F"
+    [] OTHER -> (IF sh.s = "match" THEN "m" \o Digit[FormIdx(sh.f)] ELSE sh.s) \o "("
+                \o ShCode(sh.ch[1]) \o (IF Len(sh.ch) > 1 THEN ShCode(sh.ch[2]) ELSE "") \o (IF Len(sh.ch) > 2 THEN ShCode(sh.ch[3]) ELSE "") \o ")"
+
+(* the statement / block of a shape as a nested tree; xb: the exit block *)
+RECURSIVE ShStmt(_, _), ShBlock(_, _)
+ShBlock(sh, xb) ==
+  CASE sh.s = "exit" -> xb
+    [] sh.s = "fall" -> BlkU(<<>>)
+    [] OTHER -> BlkU(<<ShStmt(sh, xb)>>)
+(* the right operand of && / ||: a block of type bool unless it exits *)
+ShOperand(sh, xb) ==
+  CASE sh.s = "exit" -> xb
+    [] sh.s = "fall" -> Blk(<<>>, B(TRUE))
+    [] OTHER -> Blk(<<ShStmt(sh, xb)>>, B(TRUE))
+ShStmt(sh, xb) ==
+  CASE sh.s = "if1"    -> If1(B(TRUE), ShBlock(sh.ch[1], xb))
+    [] sh.s = "ifelse" -> If(B(TRUE), ShBlock(sh.ch[1], xb), ShBlock(sh.ch[2], xb))
+    [] sh.s = "while"  -> While(B(FALSE), ShBlock(sh.ch[1], xb))
+    [] sh.s = "for"    -> For("zz_it", Lst(<<I(0)>>), ShBlock(sh.ch[1], xb))
+    [] sh.s \in {"and", "or"} -> Bin(sh.s, B(sh.s = "and"), ShOperand(sh.ch[1], xb))
+    [] sh.s = "match"  ->
+         Match(SomeB(I(1)), [x \in DOMAIN sh.f |->
+            LET a == sh.f[x]
+                bs == IF a.v = "Some" THEN <<"zz_v">> ELSE <<>>
+            IN IF a.g THEN ArmG(a.v, bs, B(TRUE), ShBlock(sh.ch[x], xb)) ELSE Arm(a.v, bs, ShBlock(sh.ch[x], xb))])
+
+(* seeds: functions of different result types and filtermaps, plus legal blocks that END in a statement *)
+(* (one small program per group of functions: the judgement is evaluated on the whole program for every shape) *)
+SDivA(t) == <<
+  Fn("dv1", <<Pm("x", T(t)), Pm("c", Bool)>>, T(t), Blk(<<Let("y", T(t), Bin("add", V("x"), L(t, 1)))>>, Bin("mul", V("y"), L(t, 2))))>>
+SDivB(t) == <<
+  Fn("dv2", <<Pm("s", Str)>>, Str, Blk(<<>>, Bin("add", V("s"), S("z")))),
+  Fn("dv3", <<Pm("o", Opt(T(t)))>>, Opt(T(t)), Blk(<<LetI("k", V("o"))>>, V("k")))>>
+SDivC(t) == <<
+  Fm("dv4", <<Pm("x", T(t))>>, Blk(<<Let("k", T(t), V("x"))>>, Ret("accept", V("k")))),
+  Fm("dv5", <<Pm("x", T(t))>>, Blk(<<>>, Ret0("reject")))>>
+SDivD(t) == <<
+  Fn("dv6", <<Pm("o", Opt(T(t))), Pm("x", T(t))>>, T(t), BlkU(<<Match(V("o"), <<
+      ArmG("Some", <<"v">>, Bin("gt", V("v"), L(t, 3)), BlkU(<<Ret("return", V("v"))>>)),
+      Arm("Some", <<"w">>, BlkU(<<If(Bin("lt", V("w"), V("x")), BlkU(<<Ret("return", V("w"))>>), BlkU(<<Ret("return", V("x"))>>))>>)),
+      Arm("None", <<>>, BlkU(<<Ret("return", V("x"))>>))>>)>>)),
+  Fn("dv7", <<Pm("o", Opt(T(t))), Pm("x", T(t))>>, T(t), Blk(<<Match(V("o"), <<
+      ArmG("Some", <<"v">>, Bin("gt", V("v"), L(t, 3)), BlkU(<<>>)),
+      Arm("_", <<>>, BlkU(<<Ret("return", V("x"))>>))>>)>>, V("x")))>>
+DivSeeds == UNION {{Seed("div_a_" \o t, SDivA(t)), Seed("div_b_" \o t, SDivB(t)), Seed("div_c_" \o t, SDivC(t)), Seed("div_d_" \o t, SDivD(t))} : t \in DivTys}
+
 (* ------------------------------------------------------------------ namesakes *)
 (* The namesake dimension: a script type declared under the name of a built-in  *)
 (* type (Typing.tla, "name resolution").  Two generators of well-typed seeds:    *)
@@ -582,6 +792,8 @@ BaseSeeds ==
   \cup {Seed("widths", SWidths)}
   \cup {Seed("ipaddr", SIp)}
   \cup TypeSeeds
+  \cup MethodSeeds
+  \cup DivSeeds
 
 RenameBaseNames ==
   UNION {{"record_" \o t, "enum_" \o t, "nested_" \o t, "shapes_" \o t, "fm_" \o t} : t \in RenameTys}
@@ -636,7 +848,7 @@ UnsignedOnly(P, x) ==
   /\ \A p \in DOMAIN d.ps : d.ps[p].t.k \in UBK
   /\ \A j \in Subtree(P, d.body) :
         /\ P.nodes[j].k = "let" /\ P.nodes[j].t # <<>> => P.nodes[j].t[1].k \in UBK
-        /\ P.nodes[j].k \notin {"float", "str", "rec", "list", "ctor", "call", "match", "for"}
+        /\ P.nodes[j].k \notin {"float", "str", "rec", "list", "ctor", "call", "mcall", "match", "for"}
         /\ P.nodes[j].k = "int" => P.nodes[j].suf = ""
         /\ P.nodes[j].k = "bin" /\ P.nodes[j].op \notin {"and", "or"} =>
               ~(P.nodes[P.nodes[j].l].k = "int" /\ P.nodes[P.nodes[j].r].k = "int")
@@ -684,7 +896,91 @@ AllFamilies == {"operand-bool", "operand-str", "logic-int", "cond-nonbool", "arg
                 "match-dup-arm", "neg-unsigned", "exit-forbidden", "assign-non-local", "redeclare",
                 "recursive-type", "recursive-const", "elem-type", "return-type", "let-type", "assign-type",
                 "fallthrough-after-loop", "fallthrough-after-shortcircuit", "cassign-result-type", "match-rename-arm", "name-sibling-scope", "recursive-member",
-                "namesake-exit", "namesake-operand", "namesake-return", "namesake-arg", "namesake-let", "namesake-field", "namesake-shadow"}
+                "namesake-exit", "namesake-operand", "namesake-return", "namesake-arg", "namesake-let", "namesake-field", "namesake-shadow",
+                "method-receiver", "method-arg-type", "method-arg-count", "method-unknown", "fallthrough-after-branch"}
+
+(* ------------------------------------------------------- method call edit families *)
+(*   method-receiver   the receiver replaced by a value of another type: a literal (string, numbers, bool, lists  *)
+(*                     of several element types, None), another parameter of the function, another field of the   *)
+(*                     record; the judgement decides which replacements the method does not accept                *)
+(*   method-arg-type   an argument replaced by a literal the parameter does not accept (the judgement decides)     *)
+(*   method-arg-count  an argument added / the last one dropped                                                   *)
+(*   method-unknown    the method renamed: to a name no type has, to a method of other types (the judgement        *)
+(*                     decides whether the receiver's type has it with these arguments)                            *)
+RecvLits == <<S("x"), IS(1, "i32"), IS(1, "u64"), FS("1.5", "f64"), B(TRUE), Lst(<<IS(1, "u64")>>), Lst(<<S("a")>>),
+              Lst(<<B(TRUE)>>), Lst(<<Lst(<<S("a")>>)>>), Lst(<<IS(1, "i32")>>), NoneB>>
+ArgLits  == <<B(TRUE), S("x"), IS(1, "i8"), FS("1.5", "f32"), Lst(<<>>), NoneB>>
+MCalls(P) == NodesOf(P, {"mcall"})
+(* node i of P replaced by the nested tree e *)
+SetNested(P, i, e) ==
+  LET a == Fl(e, P.nodes) IN [P EXCEPT !.nodes = [a.ns EXCEPT ![i] = a.ns[a.i]]]
+RecordFieldNames(P) == UNION {Range(Names(P.decls[x].fs)) : x \in {y \in DOMAIN P.decls : P.decls[y].k = "record"}}
+MethCands(P, f) ==
+  CASE f = "method-receiver" ->
+         {[i |-> j, w |-> "lit", c |-> c] : j \in MCalls(P), c \in DOMAIN RecvLits}
+         \cup UNION {{[i |-> j, w |-> "var", n |-> v] : v \in Range(Names(P.decls[OwnerOf(P, j)].ps))} : j \in {y \in MCalls(P) : HasOwner(P, y)}}
+         \cup UNION {{[i |-> j, w |-> "field", n |-> v] : v \in RecordFieldNames(P) \ {P.nodes[P.nodes[j].e].f}}
+                     : j \in {y \in MCalls(P) : P.nodes[P.nodes[y].e].k = "fld"}}
+    [] f = "method-arg-type" ->
+         UNION {{[i |-> j, x |-> x, c |-> c] : x \in DOMAIN P.nodes[j].args, c \in DOMAIN ArgLits} : j \in MCalls(P)}
+    [] f = "method-unknown" ->
+         {[i |-> j, w |-> "other", m |-> m] : j \in MCalls(P), m \in SwapMethods}
+MethBreak(P, f, s) ==
+  CASE f = "method-receiver" ->
+         IF s.w = "lit" THEN SetNested(P, P.nodes[s.i].e, RecvLits[s.c])
+         ELSE IF s.w = "var" THEN SetNode(AddNode(P, V(s.n)), s.i, [P.nodes[s.i] EXCEPT !.e = NewIdx(P)])
+         ELSE SetNode(P, P.nodes[s.i].e, [P.nodes[P.nodes[s.i].e] EXCEPT !.f = s.n])
+    [] f = "method-arg-type" -> SetNested(P, P.nodes[s.i].args[s.x], ArgLits[s.c])
+    [] f = "method-arg-count" ->
+         IF s.w = "add" THEN SetNode(AddNode(P, I(0)), s.i, [P.nodes[s.i] EXCEPT !.args = Append(@, NewIdx(P))])
+         ELSE SetNode(P, s.i, [P.nodes[s.i] EXCEPT !.args = SubSeq(@, 1, Len(@) - 1)])
+    [] f = "method-unknown" -> SetNode(P, s.i, [P.nodes[s.i] EXCEPT !.m = IF s.w = "fresh" THEN "zz_nomethod" ELSE s.m])
+MethSites(P, f) ==
+  IF MCalls(P) = {} THEN {} ELSE
+  CASE f = "method-arg-count" ->
+         {[i |-> j, w |-> "add"] : j \in MCalls(P)} \cup {[i |-> j, w |-> "drop"] : j \in {y \in MCalls(P) : P.nodes[y].args # <<>>}}
+    [] f = "method-unknown" ->
+         {[i |-> j, w |-> "fresh"] : j \in MCalls(P)}
+         \cup {s \in MethCands(P, f) : s.m # P.nodes[s.i].m /\ ~WellTyped(MethBreak(P, f, s))}
+    [] OTHER -> {s \in MethCands(P, f) : ~WellTyped(MethBreak(P, f, s))}
+MethFams == {"method-receiver", "method-arg-type", "method-arg-count", "method-unknown"}
+
+(* ------------------------------------------------- family fallthrough-after-branch *)
+(* A function that must return a value (a filtermap that ended in accept / reject; an annotated let of the         *)
+(* function's result type): its final expression e moves into the exit blocks of a shape that does NOT exit on     *)
+(* every path, and the body (the initialiser block) ends in the statement of the shape.                            *)
+DivFns(P) == {x \in FnIdx(P) : /\ P.nodes[P.decls[x].body].last # <<>>
+                                /\ \/ P.decls[x].k = "fn" /\ P.decls[x].ret.k # "unit"
+                                   \/ P.decls[x].k = "filtermap" /\ P.nodes[P.nodes[P.decls[x].body].last[1]].k = "ret"}
+FirstDivFn(P) == {x \in DivFns(P) : \A y \in DivFns(P) : x <= y}
+DivLets(P) == {j \in NodesOf(P, {"let"}) : /\ P.nodes[j].t # <<>> /\ HasOwner(P, j)
+                                           /\ LET d == P.decls[OwnerOf(P, j)] IN
+                                              d.k = "fn" /\ d.n \in DivDeepFns /\ d.ret.k # "unit" /\ d.ret = P.nodes[j].t[1]}
+DivSite(x, w, sh) == [d |-> x, w |-> w, sh |-> sh, code |-> ShCode(sh), tags |-> ShTags(sh)]
+DivCands(P) ==
+  {DivSite(x, IF P.decls[x].k = "fn" THEN "fn-body" ELSE "filtermap-body", sh) :
+      x \in {y \in DivFns(P) : P.decls[y].n \in DivDeepFns}, sh \in Depth1 \cup Depth2}
+  \cup {DivSite(x, IF P.decls[x].k = "fn" THEN "fn-body" ELSE "filtermap-body", sh) :
+      x \in {y \in FirstDivFn(P) : P.decls[y].n \notin DivDeepFns}, sh \in CoreShapes}
+  \cup {DivSite(j, "let-init", sh) : j \in DivLets(P), sh \in Depth1}
+DivBreak(P, s) ==
+  IF s.w = "let-init" THEN
+    LET xb == BlkU(<<Ret("return", Ref(P.nodes[s.d].e))>>)
+        a == Fl(ShBlock(s.sh, xb), P.nodes)
+    IN [P EXCEPT !.nodes = [a.ns EXCEPT ![s.d] = [P.nodes[s.d] EXCEPT !.e = a.i]]]
+  ELSE
+    LET b == P.decls[s.d].body
+        e == P.nodes[b].last[1]
+        xb == IF P.decls[s.d].k = "fn" THEN BlkU(<<Ret("return", Ref(e))>>) ELSE BlkU(<<Ref(e)>>)
+        a == Fl(ShStmt(s.sh, xb), P.nodes)
+    IN [P EXCEPT !.nodes = [a.ns EXCEPT ![b] = [P.nodes[b] EXCEPT !.ss = Append(@, a.i), !.last = <<>>]]]
+(* twins: the same edit with a shape that exits on every path gives a well-typed program (a seed without edits of *)
+(* its own).  A guarded `_` arm makes the unpatched compiler panic in lowering (a known C06-type finding), so the *)
+(* twins leave that arm form out; the mutants do not.                                                             *)
+DivTwinSeeds ==
+  UNION {{[name |-> "twin_" \o sd.name \o "_" \o (IF c.w = "let-init" THEN "let" ELSE sd.prog.decls[c.d].n) \o "_" \o c.code,
+           prog |-> DivBreak(sd.prog, c), cls |-> "twin"] :
+            c \in {z \in DivCands(sd.prog) : AllExit(z.sh) /\ ~HasGuardedWild(z.sh)}} : sd \in DivSeeds}
 
 (* --------------------------------------------------------- namesake edit families *)
 (* Each edit confuses a declared namesake with the built-in of the same name at a  *)
@@ -798,11 +1094,17 @@ RuleOf(f) ==
     [] f = "namesake-arg"         -> "argument type"
     [] f = "namesake-let"         -> "assigned value type"
     [] f = "namesake-field"       -> "field type"
+    [] f \in {"method-receiver", "method-arg-type"} -> "argument type"
+    [] f = "method-arg-count"     -> "wrong argument count"
+    [] f = "method-unknown"       -> "unknown or out-of-scope name"
+    [] f = "fallthrough-after-branch" -> "return type"
     [] f = "namesake-shadow"      -> "a type that cannot equal the expected one (or a recursive type) through a declaration that shadows a built-in name"
 
 (* the sites at which family f applies to program P *)
 Sites(P, f) ==
   CASE f \in NsFams -> NsSites(P, f)
+    [] f \in MethFams -> MethSites(P, f)
+    [] f = "fallthrough-after-branch" -> {s \in DivCands(P) : HasExit(s.sh) /\ ~AllExit(s.sh)}
     [] f = "namesake-shadow" ->
          (* the renamings of a declared type to a built-in name that the judgement rejects *)
          {s \in {[d |-> x, b |-> N] : x \in TypeDeclIdx(P), N \in {m \in NsNames : ~HasDecl(P, m)}} :
@@ -948,6 +1250,8 @@ ParamTys(P, j) ==
 (* Break(f, s): the program obtained from P by the single edit of family f at site s *)
 Break(P, f, s) ==
   CASE f \in NsFams -> NsBreak(P, f, s)
+    [] f \in MethFams -> MethBreak(P, f, s)
+    [] f = "fallthrough-after-branch" -> DivBreak(P, s)
     [] f = "namesake-shadow" -> Rename(P, P.decls[s.d].n, s.b)
     [] f = "operand-bool" -> SetNode(P, s.i, B(TRUE))
     [] f = "operand-str"  -> SetNode(P, s.i, S("x"))
@@ -1072,10 +1376,12 @@ vars == <<seed, fam, site, stage>>
 
 NoSite == [none |-> TRUE]
 
-MCInit == seed \in Seeds /\ fam = "" /\ site = NoSite /\ stage = "seed"
+AllSeeds == Seeds \cup DivTwinSeeds
+MCInit == seed \in AllSeeds /\ fam = "" /\ site = NoSite /\ stage = "seed"
 
 (* namesake seeds get the families of NsFamilies; the renaming family applies to the base seeds only *)
 FamsOf(sd) == IF sd.cls = "ns" THEN NsFamilies
+              ELSE IF sd.cls = "twin" THEN {}
               ELSE IF sd.cls = "base" THEN Families
               ELSE Families \ {"namesake-shadow"}
 
@@ -1096,7 +1402,10 @@ MutantIllTyped == stage = "mutant" => ~WellTyped(Mutant)
 Emit ==
   IF stage = "seed"
   THEN PrintT(<<"REPLAY", ToJson([kind |-> "seed", seed |-> seed.name, prog |-> seed.prog, cls |-> seed.cls, ns |-> NsOf(seed.prog)])>>)
-  ELSE PrintT(<<"REPLAY", ToJson([kind |-> "mutant", seed |-> seed.name, family |-> fam, rule |-> RuleOf(fam),
-                                  site |-> site, prog |-> Mutant, cls |-> seed.cls, ns |-> NsOf(Mutant),
-                                  lax_rule |-> IF fam \in {"match-dup-arm", "fallthrough-after-loop", "match-rename-arm"} THEN LaxRule(Mutant) ELSE ""])>>)
+  ELSE LET m == Mutant
+           \* (the shape itself stays in the model: its code and tags are what the check reads)
+           st == IF fam = "fallthrough-after-branch" THEN [d |-> site.d, w |-> site.w, code |-> site.code, tags |-> site.tags] ELSE site
+       IN PrintT(<<"REPLAY", ToJson([kind |-> "mutant", seed |-> seed.name, family |-> fam, rule |-> RuleOf(fam),
+                                  site |-> st, prog |-> m, cls |-> seed.cls, ns |-> NsOf(m),
+                                  lax_rule |-> IF fam \in {"match-dup-arm", "fallthrough-after-loop", "match-rename-arm"} THEN LaxRule(m) ELSE ""])>>)
 =============================================================================
